@@ -1,3 +1,5 @@
+pub mod conv;
 pub mod gen;
 pub mod obs;
+pub mod refdec;
 pub mod sweep;
